@@ -351,7 +351,7 @@ def unknown_text(sign_char, base):
     return setup
 
 
-def cutoff_run(mod, fname, base, neg, externals):
+def cutoff_run(mod, fname, base, neg, externals, model='LP64'):
     """one function, one base argument, texts '-...' (neg) or '+...': evaluate the obligations of
     the digit loop's edges.  Returns rule instances."""
     f = mod.fn(fname)
@@ -374,7 +374,7 @@ def cutoff_run(mod, fname, base, neg, externals):
         mode = 'direct'
         lo, hi, sgn = (-(M >> 1), 0, -1) if neg else (0, (M >> 1) - 1, 1)
         clamp = (M >> 1) if neg else (M >> 1) - 1
-    T = Tally(fname, 'base %d, %s text' % (base, 'negative' if neg else 'non-negative'))
+    T = Tally(fname, '%s, base %d, %s text' % (model, base, 'negative' if neg else 'non-negative'))
     pa, pf, qa, qf = d['P_acc'], d['P_any'], d['Q_acc'], d['Q_any']
     site0 = d['sites'][0]
     state = {'flag_clamped': True, 'rejects': 0}
@@ -638,3 +638,29 @@ def forward_rule(rep, repo, mod):
         ok2 = v.k == 'inst' and v.id == calls[0].id and all(c.op == 'trunc' for c in chain)
     rep.inst('R-FORWARD', 'atoi', 'returns (int) of that result', ok2, where,
              None if ok2 else 'atoi does not return the truncated result of atol')
+
+
+
+def summarize_sites(it, run):
+    """contracts.summarize() with per-site identities: the object description of an access
+    obligation is extended by the ordinal of the instruction among the instructions of the same
+    opcode in its function ('load #3'), so that every access is its own rule instance without
+    putting line numbers into the identity."""
+    obs = summarize(it, run)
+    obl = list(it.obligs.values())
+    ordinals = {}
+    for ob, o in zip(obl, obs):
+        i = ob.inst
+        if i is None or (o.get('objdesc') and '#' in str(o['objdesc'])):
+            continue
+        f = i.fn
+        m = ordinals.get(f.name)
+        if m is None:
+            m = ordinals[f.name] = {}
+            cnt = {}
+            for x in f.all_insts():
+                op = x.op if x.op != 'call' else 'call ' + (x.callee or 'indirect')
+                cnt[op] = cnt.get(op, 0) + 1
+                m[x.id] = '%s #%d' % (op, cnt[op])
+        o['objdesc'] = '%s, %s' % (o.get('objdesc') or 'access', m.get(i.id, '?'))
+    return obs
